@@ -380,6 +380,12 @@ _NEUTRAL_BASES = {
     "neutral-r7": ["C13", "C14", "C15"],
     "neutral-r8": ["C08", "C17"],
     "neutral-r1": ["C01", "C02", "C06", "C11", "C12"],
+    "neutral-r9": ["C01", "C02", "C03", "C04", "C05", "C06", "C09", "C10", "C11", "C12"],
+    "neutral-r10": ["C04", "C07", "C16"],
+    "neutral-r11": ["C16", "C18", "C19"],
+    "neutral-r12": ["C15", "C16", "C17"],
+    "neutral-r13": ["C05", "C14", "C20"],
+    "neutral-r14": ["C03", "C08", "C11", "C14", "C15"],
 }
 for _b, _ps in _NEUTRAL_BASES.items():
     for _p, _m in refactor(_b, _ps).items():
@@ -425,5 +431,27 @@ _CROSS = {
     "C17": [on("neutral-r8", mut("r8+sign-swapped", "sign string swapped",
                                  [(FORMAT, 'let sign = if rounded.is_sign_negative() { "-" } else { "" };', 'let sign = if rounded.is_sign_negative() { "" } else { "-" };')], ["R4:"]))],
 }
-for _p, _ms in _CROSS.items():
+_CROSS2 = {
+    "C05": [on("neutral-r9", mut("r9+holding-strict", "holding helper refuses an exactly covered sale",
+                                 [(M, "        if sell_amount <= total_held {", "        if sell_amount < total_held {")], ["R1:guard:shape"]))],
+    "C04": [on("neutral-r9", mut("r9+proceeds-args-swapped", "carrier passes fees where the price belongs",
+                                 [(M, "compute_proceeds(matched_qty, self.amount, self.price, self.fees)", "compute_proceeds(matched_qty, self.amount, self.fees, self.price)")], ["R2:"])),
+            on("neutral-r10", mut("r10+fold-loss-into-gain", "fold step books a loss as a gain",
+                                  [(CALC, "        Ordering::Less => (total_gain, total_loss + net.abs()),", "        Ordering::Less => (total_gain + net.abs(), total_loss),")], ["R3:"]))],
+    "C18": [on("neutral-r11", mut("r11+loop-sanitiser-lf-only", "character loop replaces only \\n",
+                                  [(OUTPUT, "comment.push(if matches!(ch, '\\n' | '\\r') { ' ' } else { ch });", "comment.push(if matches!(ch, '\\n') { ' ' } else { ch });")], ["R4:"]))],
+    "C19": [on("neutral-r11", mut("r11+fallback-unconditional", "fallback price inserted even when vest entries exist",
+                                  [(AWARDS, "    } else if let Some(first) = candidates.first() {", "    }\n    if let Some(first) = candidates.first() {")], ["R2:"]))],
+    "C17": [on("neutral-r12", mut("r12+sign-test-inverted", "minus pushed for positive amounts",
+                                  [(FORMAT, "    if rounded.is_sign_negative() {", "    if rounded.is_sign_positive() {")], ["R4:"]))],
+    "C20": [on("neutral-r13", mut("r13+find-date-only", "find chain compares the date only",
+                                  [(SERVER, ".find(|disposal| disposal.date == date && disposal.ticker.eq_ignore_ascii_case(ticker))", ".find(|disposal| disposal.date == date)")], ["R5:"]))],
+    "C14": [on("neutral-r13", mut("r13+sniffer-inverted", "JSON goes to the DSL parser",
+                                  [(SERVER, "        if looks_like_json(trimmed) {", "        if !looks_like_json(trimmed) {")], ["R3:"]))],
+    "C08": [on("neutral-r14", mut("r14+generic-mapper-wrong-field", "generic mapper converts the price twice",
+                                  [(MODELS, "                let price = convert(price)?;\n                let fees = convert(fees)?;", "                let fees = convert(price)?;\n                let price = convert(price)?;")], ["R1:"]))],
+    "C11": [on("neutral-r14", mut("r14+closure-no-apportion", "closure adds the whole adjustment to every lot",
+                                  [(LED, "                    lot.cost_offset += adjustment * (held / total_held);", "                    lot.cost_offset += adjustment;")], ["R4:"]))],
+}
+for _p, _ms in list(_CROSS.items()) + list(_CROSS2.items()):
     MUTANTS.setdefault(_p, []).extend(_ms)
